@@ -138,46 +138,7 @@ def run(chk):
         chk.check(folder.try_fold(c.args[1], sc, None) == 16, "R4", f"{E}:import_eds | {src(c.args[0])} hexadecimal", ie.loc(c), src(c))
 
     # ------------------------------------------------------------------ R5 DeviceInfo
-    imp_tab = exp_tab = None
-    for lp in [n for n in ast.walk(ie.node) if isinstance(n, ast.For) and isinstance(n.iter, ast.List) and isinstance(n.target, ast.Tuple) and len(n.target.elts) == 3]:
-        rows = []
-        for el in lp.iter.elts:
-            if isinstance(el, ast.Tuple) and len(el.elts) == 3:
-                rows.append((src(el.elts[0]), folder.try_fold(el.elts[1], sc, None), folder.try_fold(el.elts[2], sc, None)))
-        imp_tab = (rows, lp)
-    ex = repo.func(E, "export_eds", "C08.R5")
-    chk.saw(ex)
-    for lp in [n for n in ast.walk(ex.node) if isinstance(n, ast.For) and isinstance(n.iter, ast.List) and isinstance(n.target, ast.Tuple) and len(n.target.elts) == 2]:
-        rows = [(folder.try_fold(el.elts[0], sc, None), folder.try_fold(el.elts[1], sc, None)) for el in lp.iter.elts if isinstance(el, ast.Tuple) and len(el.elts) == 2]
-        if rows and all(isinstance(r[0], str) for r in rows):
-            exp_tab = (rows, lp)
-    if imp_tab is None or exp_tab is None:
-        chk.unk("R5", f"{E} | DeviceInfo tables", E, "importer/exporter DeviceInfo tables not found")
-    else:
-        chk.analysed_tables += ["import_eds DeviceInfo table", "export_eds DeviceInfo table"]
-        ip = {(r[1], r[2]) for r in imp_tab[0]}
-        ep = set(exp_tab[0])
-        chk.check(ip == ep, "R5", f"{E} | DeviceInfo pairs agree", f"{E}:{imp_tab[1].lineno}", f"only imported {sorted(ip - ep)}, only exported {sorted(ep - ip)}")
-        dic = repo.cls(OD, "DeviceInformation", "C08.R5")
-        attrs = set(dic.consts)
-        for n in ast.walk(dic.node):
-            if isinstance(n, ast.AnnAssign) and isinstance(n.target, ast.Name):
-                attrs.add(n.target.id)
-        if "__init__" in dic.methods:
-            di = dic.methods["__init__"]
-            chk.saw(di)
-            attrs |= {t.attr for n in own_nodes(di.node) if isinstance(n, (ast.Assign, ast.AnnAssign)) for t in ([n.target] if isinstance(n, ast.AnnAssign) else n.targets)
-                      if isinstance(t, ast.Attribute)}
-        chk.floor("R5", len(imp_tab[0]), 14, "DeviceInfo rows")
-        for t, opt, attr in imp_tab[0]:
-            want = O.DEVICE_INFO.get(opt)
-            wt = want if isinstance(want, tuple) else (want,)
-            chk.check(want is not None and t in [x.__name__ for x in wt], "R5", f"{E}:import_eds | DeviceInfo {opt} type", f"{E}:{imp_tab[1].lineno}",
-                      f"{opt} is converted with {t}; CiA 306: {'/'.join(x.__name__ for x in wt) if want else 'unknown option'}")
-            chk.check(attr in attrs, "R5", f"{E}:import_eds | DeviceInfo {opt} -> {attr}", f"{E}:{imp_tab[1].lineno}", f"DeviceInformation has no attribute {attr}")
-        # conversion statement: t(int(eds.get(..), 0)) for int/bool, plain for str
-        body_txt = " ".join(src(s_) for s_ in imp_tab[1].body)
-        chk.check("t(int(eds.get('DeviceInfo', eprop), 0))" in body_txt and "t in (int, bool)" in body_txt, "R5", f"{E}:import_eds | DeviceInfo conversion", f"{E}:{imp_tab[1].lineno}", "")
+    imp_tab = device_info(chk, "R5")
 
     # ------------------------------------------------------------------ R6 dual index
     for cname, primary, key in (("ObjectDictionary", "indices", "index"), ("ODRecord", "subindices", "subindex"), ("ODArray", "subindices", "subindex")):
@@ -500,6 +461,65 @@ def run(chk):
     # ------------------------------------------------------------------ R12 instances are independent (shared clause)
     from . import shared as _shared
     _shared.isolation(chk, "R12", rels=['canopen/objectdictionary/__init__.py', 'canopen/objectdictionary/eds.py'])
+
+
+def device_info(chk, rule: str):
+    """[DeviceInfo]: importer and exporter list the same (option, attribute) pairs with the CiA 306 types; returns the importer's table."""
+    repo, folder = ctx(chk)
+    mod = repo.mod(E, f"{chk.prop}.{rule}")
+    sc = Scope(mod)
+    ie = repo.func(E, "import_eds", f"{chk.prop}.{rule}")
+    imp_tab = exp_tab = None
+    for lp in [n for n in ast.walk(ie.node) if isinstance(n, ast.For) and isinstance(n.iter, ast.List) and isinstance(n.target, ast.Tuple) and len(n.target.elts) == 3]:
+        rows = []
+        for el in lp.iter.elts:
+            if isinstance(el, ast.Tuple) and len(el.elts) == 3:
+                rows.append((src(el.elts[0]), folder.try_fold(el.elts[1], sc, None), folder.try_fold(el.elts[2], sc, None)))
+        imp_tab = (rows, lp)
+    ex = repo.func(E, "export_eds", f"{chk.prop}.{rule}")
+    chk.saw(ex)
+    for lp in [n for n in ast.walk(ex.node) if isinstance(n, ast.For) and isinstance(n.iter, ast.List) and isinstance(n.target, ast.Tuple) and len(n.target.elts) == 2]:
+        rows = [(folder.try_fold(el.elts[0], sc, None), folder.try_fold(el.elts[1], sc, None)) for el in lp.iter.elts if isinstance(el, ast.Tuple) and len(el.elts) == 2]
+        if rows and all(isinstance(r[0], str) for r in rows):
+            exp_tab = (rows, lp)
+    if imp_tab is None or exp_tab is None:
+        chk.unk(rule, f"{E} | DeviceInfo tables", E, "importer/exporter DeviceInfo tables not found")
+    else:
+        chk.analysed_tables += ["import_eds DeviceInfo table", "export_eds DeviceInfo table"]
+        ip = {(r[1], r[2]) for r in imp_tab[0]}
+        ep = set(exp_tab[0])
+        chk.check(ip == ep, rule, f"{E} | DeviceInfo pairs agree", f"{E}:{imp_tab[1].lineno}", f"only imported {sorted(ip - ep)}, only exported {sorted(ep - ip)}")
+        dic = repo.cls(OD, "DeviceInformation", f"{chk.prop}.{rule}")
+        attrs = set(dic.consts)
+        for n in ast.walk(dic.node):
+            if isinstance(n, ast.AnnAssign) and isinstance(n.target, ast.Name):
+                attrs.add(n.target.id)
+        if "__init__" in dic.methods:
+            di = dic.methods["__init__"]
+            chk.saw(di)
+            attrs |= {t.attr for n in own_nodes(di.node) if isinstance(n, (ast.Assign, ast.AnnAssign)) for t in ([n.target] if isinstance(n, ast.AnnAssign) else n.targets)
+                      if isinstance(t, ast.Attribute)}
+        chk.floor(rule, len(imp_tab[0]), 14, "DeviceInfo rows")
+        for t, opt, attr in imp_tab[0]:
+            want = O.DEVICE_INFO.get(opt)
+            wt = want if isinstance(want, tuple) else (want,)
+            chk.check(want is not None and t in [x.__name__ for x in wt], rule, f"{E}:import_eds | DeviceInfo {opt} type", f"{E}:{imp_tab[1].lineno}",
+                      f"{opt} is converted with {t}; CiA 306: {'/'.join(x.__name__ for x in wt) if want else 'unknown option'}")
+            chk.check(attr in attrs, rule, f"{E}:import_eds | DeviceInfo {opt} -> {attr}", f"{E}:{imp_tab[1].lineno}", f"DeviceInformation has no attribute {attr}")
+        # conversion statement: t(int(eds.get(..), 0)) for int/bool, plain for str
+        body_txt = " ".join(src(s_) for s_ in imp_tab[1].body)
+        chk.check("t(int(eds.get('DeviceInfo', eprop), 0))" in body_txt and "t in (int, bool)" in body_txt, rule, f"{E}:import_eds | DeviceInfo conversion", f"{E}:{imp_tab[1].lineno}", "")
+
+    if imp_tab is not None:
+        lp = imp_tab[1]
+        tries = [t for t in ast.walk(ie.node) if isinstance(t, ast.Try) and any("NoOptionError" in src(h.type or ast.Constant(None)) for h in t.handlers)
+                 and (any(x is lp for x in ast.walk(t)) or any(x is t for x in ast.walk(lp)))]
+        inside = [t for t in tries if any(x is t for x in ast.walk(lp))]
+        around = [t for t in tries if any(x is lp for b in t.body for x in ast.walk(b))]
+        chk.check(bool(inside) and not around, rule, f"{E}:import_eds | a missing DeviceInfo option skips only that option", f"{E}:{lp.lineno}",
+                  "the NoOptionError handler encloses the whole loop over the DeviceInfo table: the first option that is absent from the file ends the loop and every later "
+                  "item keeps its default" if around else "no per-option NoOptionError handler inside the loop")
+    return imp_tab
 
 
 def node_id_in_force(chk, rule: str):
